@@ -74,11 +74,16 @@ func race(query string, timeout time.Duration, dir string, tag string, wantAll b
 			case "unsat", "sat":
 				st = first
 			}
+			if strings.HasPrefix(first, "(error") && strings.HasPrefix(s.name, "z3") {
+				// the query itself is ill-formed (a sort error in the generator), not hard
+				st = "malformed"
+			}
 			ch <- one{s.name, st, txt, time.Since(start).Milliseconds()}
 		}()
 	}
 	res := solveResult{status: "unknown", all: map[string]string{}}
 	var outs []string
+	malformed := false
 	for range useSolvers {
 		o := <-ch
 		res.all[o.name] = o.status
@@ -93,10 +98,16 @@ func race(query string, timeout time.Duration, dir string, tag string, wantAll b
 				res.status = "disagree"
 			}
 		} else {
+			if o.status == "malformed" {
+				malformed = true
+			}
 			outs = append(outs, o.name+": "+trunc(strings.TrimSpace(o.out), 300))
 		}
 	}
-	if res.status == "unknown" {
+	if malformed && res.status == "unknown" {
+		res.status = "malformed"
+	}
+	if res.status == "unknown" || res.status == "malformed" {
 		res.ms = time.Since(start).Milliseconds()
 		res.output = strings.Join(outs, "\n")
 	}
@@ -141,6 +152,9 @@ func solveOne(o *Obligation, timeout time.Duration, dir string, thorough bool) {
 		case "unsat":
 			o.Status = "cover-failed"
 			o.Output = "hypotheses are contradictory (vacuous)"
+		case "malformed":
+			o.Status = "malformed"
+			o.Output = r.output
 		default:
 			o.Status = "cover-unknown"
 		}
@@ -151,6 +165,9 @@ func solveOne(o *Obligation, timeout time.Duration, dir string, thorough bool) {
 		o.Status = "discharged"
 	case "sat":
 		o.Status = "failed"
+		o.Output = r.output
+	case "malformed":
+		o.Status = "malformed"
 		o.Output = r.output
 	case "disagree":
 		o.Status = "undecided"
